@@ -23,6 +23,9 @@ TRIGGERS = [b"version", b"Version=", b"sec.", b"section", b"<t>", b"<w:t>"]
 OCT = [0, 1, 9, 10, 99, 100, 199, 200, 249, 250, 254, 255]  # boundary octets; the last octet excludes the documented .0 / .255 forms
 
 
+B64_ALPHABET = b"ABCDEFGHIJKLMNOPQRSTUVWXYZabcdefghijklmnopqrstuvwxyz0123456789+/"
+
+
 def instances():
     """(type(s), text, canonical value) -- one list per indicator grammar."""
     out = []
@@ -165,6 +168,18 @@ def run_unit(unit, rec):
             w = {"kind": "inst", "data": data, "span": [a, a + len(text)], "types": list(types), "value": value}
             check(rec, data, a, a + len(text), types, value, w, profile=profile)
             n += 1
+        # a decodable neighbour on the previous line whose pattern reaches across the line break into the first characters of the indicator
+        # (unpadded base64 of every residue mod 4, so that blob + swallowed prefix is a multiple of 4): the two results then overlap partially
+        for blob_len in range(22, 30):
+            blob = (b"CzBVx9QmLr7TfK2hYwE8aZpNd3Gu")[:blob_len - 3] + b"jLH"
+            for d in (b"\n", b"\r\n"):
+                data = b"id: " + blob + d + text + d + b"end"
+                a = len(b"id: " + blob + d)
+                if all(c in B64_ALPHABET for c in text):
+                    rec.note("reaching base64 neighbour skipped: the indicator consists of base64 characters only, the run legitimately swallows it whole")
+                    continue
+                check(rec, data, a, a + len(text), types, value, {"kind": "inst", "data": data, "span": [a, a + len(text)], "types": list(types), "value": value},
+                      sig_extra="|base64-run-on-previous-line", profile=None)
         # false-positive triggers: must not matter in suffix position; in prefix position they may only remove the indicator
         for trig in TRIGGERS:
             for d in (b" ", b"\n"):
